@@ -83,6 +83,9 @@ func postCopy(hist []HistEntry) string {
 	var copyE *HistEntry
 	ci := -1
 	for i := len(hist) - 2; i >= 0; i-- {
+		if writesFile(hist[i].Op.Line) {
+			return "" // something was written since: no longer "right after the copy"
+		}
 		if opIs(hist[i].Op.Line, "copy") {
 			copyE, ci = &hist[i], i
 			break
@@ -143,6 +146,9 @@ func postSumCopy(hist []HistEntry) string {
 		return ""
 	}
 	for i := len(hist) - 2; i >= 0; i-- {
+		if writesFile(hist[i].Op.Line) {
+			return "" // something was written in between: no longer "right after"
+		}
 		if opIs(hist[i].Op.Line, "sumcopy") {
 			// a clock tick between the two commands moves the window: not comparable
 			if classWord(hist[i].Impl) == "ok" && opKV(hist[i].Op.Line, "items") == opKV(last.Op.Line, "items") &&
@@ -155,6 +161,16 @@ func postSumCopy(hist []HistEntry) string {
 		}
 	}
 	return ""
+}
+
+// writesFile: a library operation that changes a file or its handle's buffer
+func writesFile(line string) bool {
+	for _, p := range []string{"upd ", "updmany ", "create ", "createover ", "setdisk ", "rmdisk"} {
+		if strings.HasPrefix(line, p) {
+			return true
+		}
+	}
+	return false
 }
 
 // postDiff (C09): the verdict is symmetric
